@@ -1790,3 +1790,435 @@ def output_emission(doc):
         return '; '.join(bad[:4]) or None
 
     return _run(main())
+
+
+# ---------------------------------------------------------------------------------------------------- C04 / C05 / C03 histories
+def _control_world():
+    import plumpy
+
+    class Ctl(plumpy.Process):
+        """CREATED -> RUNNING(run: async, awaits a gate) -> WAITING(after) -> RUNNING(last) -> FINISHED"""
+        def __init__(self, *a, **k):
+            super().__init__(*a, **k)
+            self.trace = []
+            self.statuses = []
+            self.gate = None
+
+        async def run(self):
+            self.trace.append(('run', self.paused))
+            self.statuses.append(('run', self.status))
+            self.set_status('working')
+            self.gate = asyncio.get_event_loop().create_future()
+            await self.gate
+            self.trace.append(('run-end', self.paused))
+            return plumpy.Wait(self.after, msg='waiting')
+
+        def after(self, value=None):
+            self.trace.append(('after', self.paused, value))
+            self.statuses.append(('after', self.status))
+            return plumpy.Continue(self.last)
+
+        def last(self):
+            self.trace.append(('last', self.paused))
+            self.statuses.append(('last', self.status))
+            return 'done'
+
+    return Ctl
+
+
+async def _drive_history(Ctl, point, requests, errs):
+    """issue `requests` (a tuple of 'pause' / 'play' / 'kill' / 'resume') at `point`, let the process run on, play it if it
+    stays paused, resume it if it waits, and report everything observable"""
+    proc = Ctl()
+    obs = {'raised': [], 'returns': []}
+    if point == 'paused':
+        await proc.step()         # CREATED -> RUNNING
+        proc.pause('first')       # paused at the step boundary before the first step function: the task below waits for play()
+    task = asyncio.ensure_future(proc.step_until_terminated())
+    if point == 'created':
+        task.cancel()
+        task = None
+    elif point == 'paused':
+        await _settle(5)
+    elif point == 'running':
+        await _settle(5)
+    elif point == 'waiting':
+        await _settle(5)
+        proc.gate.set_result(None)
+        await _settle(10)
+    for r in requests:
+        try:
+            if r == 'pause':
+                obs['returns'].append(('pause', proc.pause('hold')))
+            elif r == 'pause0':
+                obs['returns'].append(('pause', proc.pause()))
+            elif r == 'play':
+                obs['returns'].append(('play', proc.play()))
+            elif r == 'kill':
+                rv = proc.kill('enough')
+                obs['returns'].append(('kill', rv))
+                if rv is True:
+                    obs['trace_len_at_kill'] = len(proc.trace)
+            elif r == 'resume':
+                obs['returns'].append(('resume', proc.resume('v')))
+        except Exception as e:  # noqa
+            obs['raised'].append((r, type(e).__name__, str(e)[:60]))
+    if task is None:
+        task = asyncio.ensure_future(proc.step_until_terminated())
+    await _settle(10)
+    obs['paused_midway'] = proc.paused
+    obs['trace_while_paused'] = list(proc.trace)
+    for _ in range(6):
+        if proc.has_terminated():
+            break
+        if proc.gate is not None and not proc.gate.done():
+            proc.gate.set_result(None)
+            await _settle(20)
+        if proc.paused:
+            try:
+                proc.play()
+            except Exception as e:  # noqa
+                obs['raised'].append(('play*', type(e).__name__, str(e)[:60]))
+            await _settle(20)
+        if proc.state.name == 'WAITING' and 'resume' not in requests and not proc.paused:
+            try:
+                proc.resume('late')
+            except Exception as e:  # noqa
+                obs['raised'].append(('resume*', type(e).__name__, str(e)[:60]))
+            await _settle(20)
+        await _settle(10)
+    obs['proc'] = proc
+    obs['task'] = task
+    return obs
+
+
+async def _resolve(v):
+    if asyncio.isfuture(v):
+        for _ in range(100):
+            if v.done():
+                break
+            await asyncio.sleep(0)
+        if not v.done():
+            return '<pending>'
+        if v.cancelled():
+            return '<cancelled>'
+        try:
+            return v.result()
+        except Exception as e:  # noqa
+            return ('<raised>', type(e).__name__)
+    return v
+
+
+def control_histories(doc):
+    """bounded search over control-request histories: up to 3 requests from {pause, play, kill, resume} issued at one of three
+    points (CREATED before stepping / inside the running step / inside the waiting step) of a three-step process.
+    Checked: kill is never lost and never raises, its reply is True exactly when the process ended KILLED, a final probing
+    kill terminates every live end configuration (C04); no step starts while paused, pause/play never raise, play un-pauses,
+    the executed steps and the result are those of the undisturbed run (C05); nothing escapes to the event loop (C03)."""
+    import itertools
+    Ctl = _control_world()
+    known = set(doc.get('known_histories') or [])
+    want = doc.get('claims') or ['C04', 'C05', 'C03', 'C06']
+
+    async def main():
+        failures = []
+        ref = await _drive_history(Ctl, 'waiting', (), [])
+        REF_STATUSES = ref['proc'].statuses
+        if ref['task'] is not None:
+            ref['task'].cancel()
+        reqs = ['pause', 'pause0', 'play', 'kill', 'resume']
+        for point in ('created', 'paused', 'running', 'waiting'):
+            for n in (1, 2, 3):
+                for requests in itertools.product(reqs, repeat=n):
+                    if 'resume' in requests and point != 'waiting':
+                        continue
+                    errs = []
+                    asyncio.get_event_loop().set_exception_handler(lambda l, c: errs.append(repr(c.get('exception') or c.get('message'))))
+                    obs = await _drive_history(Ctl, point, requests, errs)
+                    proc = obs['proc']
+                    key = f"{point}:{'+'.join(requests)}"
+                    probs = []
+                    killed_asked = 'kill' in requests
+                    # ---- C05
+                    if 'C05' in want:
+                        for r, cls_, msg in obs['raised']:
+                            if r.startswith('pause') or r.startswith('play'):
+                                probs.append(('C05', r.rstrip('*') + '-raises', f'{r}() raised {cls_}: {msg}'))
+                        if any(e[1] for e in proc.trace):
+                            probs.append(('C05', 'step-while-paused', f'a step started while the process reported paused: {proc.trace}'))
+                        if not killed_asked and proc.state.name != 'KILLED':
+                            steps = [e[0] for e in proc.trace]
+                            if steps != ['run', 'run-end', 'after', 'last'] or proc.state.name != 'FINISHED' or proc.result() != 'done':
+                                probs.append(('C05', 'different-run', f'steps {steps}, end {proc.state.name}: not the undisturbed run'))
+                        if not killed_asked and proc.state.name == 'FINISHED' and proc.statuses != REF_STATUSES:
+                            probs.append(('C05', 'status', f'status at the entry of each step {proc.statuses}; undisturbed run: {REF_STATUSES}'))
+                        pp = [r for r in requests if r in ('pause', 'pause0', 'play')]
+                        if pp and pp[-1] == 'play' and obs['paused_midway'] and 'kill' not in requests:
+                            probs.append(('C05', 'pause-after-play', 'play() was the last pause/play request, yet the process paused afterwards'))
+                    # ---- C06
+                    if 'C06' in want and 'resume' in requests and not killed_asked:
+                        got = [e[2] for e in proc.trace if e[0] == 'after']
+                        if proc.state.name == 'WAITING':
+                            probs.append(('C06', 'wakeup-lost', f'resumed, yet the process stays WAITING (steps {[e[0] for e in proc.trace]})'))
+                        elif got != ['v']:
+                            probs.append(('C06', 'resume-value', f'the continuation received {got} instead of the value of the first resume()'))
+                    # ---- C04
+                    if 'C04' in want:
+                        for r, cls_, msg in obs['raised']:
+                            if r == 'kill':
+                                probs.append(('C04', 'kill-raises', f'kill() raised {cls_}: {msg}'))
+                        if killed_asked and proc.state.name not in ('KILLED', 'EXCEPTED'):
+                            probs.append(('C04', 'kill-lost', f'kill requested but the process ended {proc.state.name}'))
+                        for r, v in obs['returns']:
+                            if r == 'kill':
+                                rv = await _resolve(v)
+                                if (rv is True) != (proc.state.name == 'KILLED'):
+                                    probs.append(('C04', 'kill-reply', f'kill() reply {rv!r} but the process ended {proc.state.name}'))
+                        if proc.state.name == 'KILLED' and killed_asked and proc.killed_msg().get('message') != 'enough':
+                            probs.append(('C04', 'kill-text', f'the kill text is recorded as {proc.killed_msg().get("message")!r}'))
+                        if 'trace_len_at_kill' in obs and len(proc.trace) > obs['trace_len_at_kill']:
+                            probs.append(('C04', 'step-after-kill', f'kill() returned True, yet step functions ran afterwards: {proc.trace[obs["trace_len_at_kill"]:]}'))
+                        if not proc.has_terminated():
+                            try:
+                                proc.kill('probe')
+                                await _settle(30)
+                                if proc.paused:
+                                    proc.play()
+                                    await _settle(30)
+                            except Exception as e:  # noqa
+                                probs.append(('C04', 'probe-raises', f'probing kill raised {type(e).__name__}'))
+                            if not proc.has_terminated():
+                                probs.append(('C04', 'unkillable', f'live end configuration ({proc.state.name}, paused={proc.paused}) cannot be killed'))
+                    # ---- C03
+                    if 'C03' in want and errs:
+                        probs.append(('C03', 'loop-error', f'reported to the event loop: {errs[:2]}'))
+                    if obs['task'] is not None:
+                        obs['task'].cancel()
+                    for prop, kind, text in probs:
+                        if prop in want:
+                            failures.append((f'{prop}|{key}|{kind}', text))
+        new = [(k, t) for k, t in failures if k not in known]
+        for k in sorted({k for k, _ in failures if k in known}):
+            print('KNOWN-HISTORY', k)
+        if doc.get('list_all'):
+            for k, t in failures:
+                print('FAIL', k, '::', t)
+        if new:
+            return '; '.join(f'{k}: {t}' for k, t in new[:3]) + (f' (+{len(new) - 3} more)' if len(new) > 3 else '')
+        return None
+
+    return _run(main())
+
+
+# ---------------------------------------------------------------------------------------------------- C03
+def failure_injection(doc):
+    """bounded search: ONE user exception injected at each point where user code runs (step function, continuation, scheduled
+    callback, every state entry/exit/termination hook -- before or after its super() call --, listener, pause/play hooks,
+    construction hooks); checked: ends EXCEPTED with exactly that exception, future raises it, stepping returns normally,
+    nothing reaches the event loop; listener failures change nothing; pause/play hook failures are reported to the requester
+    and leave the process controllable; construction failures propagate"""
+    import plumpy
+    known = set(doc.get('known_histories') or [])
+
+    class Boom(Exception):
+        pass
+
+    HOOKS = ['on_run', 'on_running', 'on_exit_running', 'on_wait', 'on_waiting', 'on_exit_waiting', 'on_finish', 'on_finished',
+             'on_terminated', 'on_output_emitting', 'on_output_emitted']
+    PAUSE_HOOKS = ['on_pausing', 'on_paused', 'on_playing']
+    CTOR_HOOKS = ['on_create', 'init']
+
+    def make(point, where):
+        class F(plumpy.Process):
+            fired = []
+
+            @classmethod
+            def define(cls, spec):
+                super().define(spec)
+                spec.outputs.dynamic = True
+
+            def run(self):
+                if point == 'run':
+                    raise Boom('run')
+                if point == 'call_soon':
+                    self.call_soon(self.cb)
+                self.out('o', 1)
+                return plumpy.Wait(self.after)
+
+            def cb(self):
+                raise Boom('call_soon')
+
+            def after(self, value=None):
+                if point == 'continuation':
+                    raise Boom('continuation')
+                return 5
+
+        def wrap(name):
+            base = getattr(plumpy.Process, name)
+
+            def hook(self, *a, **k):
+                if where == 'before' and not F.fired:
+                    F.fired.append(name)
+                    raise Boom(name)
+                r = base(self, *a, **k)
+                if not F.fired:
+                    F.fired.append(name)
+                    raise Boom(name)
+                return r
+            hook.__name__ = name
+            return hook
+        if point in HOOKS + PAUSE_HOOKS + CTOR_HOOKS:
+            setattr(F, point, wrap(point))
+        return F
+
+    class BadListener(plumpy.ProcessListener):
+        def on_process_running(self, process):
+            raise Boom('listener')
+
+        def on_output_emitted(self, process, port, value, dynamic):
+            raise Boom('listener')
+
+        def on_process_finished(self, process, outputs):
+            raise Boom('listener')
+
+    async def run_to_end(proc, errs):
+        task = asyncio.ensure_future(proc.step_until_terminated())
+        for _ in range(8):
+            await _settle(10)
+            if proc.has_terminated() or task.done():
+                break
+            if proc.state.name == 'WAITING':
+                proc.resume('x')
+        await _settle(10)
+        return task
+
+    async def main():
+        failures = []
+
+        def fail(key, text):
+            failures.append((key, text))
+
+        for point in ['run', 'continuation', 'call_soon'] + HOOKS:
+            for where in (('before', 'after') if point in HOOKS else ('-',)):
+                key = f'C03|{point}:{where}'
+                errs = []
+                asyncio.get_event_loop().set_exception_handler(lambda l, c: errs.append(repr(c.get('exception') or c.get('message'))))
+                F = make(point, where)
+                try:
+                    proc = F()
+                except Exception as e:  # noqa
+                    fail(key + '|ctor', f'construction raised {type(e).__name__}')
+                    continue
+                task = await run_to_end(proc, errs)
+                if not task.done():
+                    fail(key + '|stuck', f'stepping does not return (state {proc.state.name})')
+                    task.cancel()
+                    continue
+                if task.exception() is not None:
+                    fail(key + '|escapes-stepping', f'step_until_terminated raised {type(task.exception()).__name__}: {task.exception()}')
+                if errs:
+                    fail(key + '|loop-error', f'reported to the event loop: {errs[:2]}')
+                if proc.state.name != 'EXCEPTED':
+                    fail(key + '|not-excepted', f'ended {proc.state.name}')
+                    continue
+                if not isinstance(proc.exception(), Boom):
+                    fail(key + '|other-exception', f'ended EXCEPTED with {type(proc.exception()).__name__}: {proc.exception()} instead of the injected one')
+                fut = proc.future()
+                if not fut.done() or not isinstance(fut.exception(), Boom):
+                    fail(key + '|future', f'the process future does not raise the injected exception: {fut}')
+        # ---- listener failures change nothing
+        errs = []
+        asyncio.get_event_loop().set_exception_handler(lambda l, c: errs.append(repr(c.get('exception') or c.get('message'))))
+        F = make('-', '-')
+        proc = F()
+        keep = BadListener()
+        proc.add_process_listener(keep)
+        task = await run_to_end(proc, errs)
+        if proc.state.name != 'FINISHED' or proc.result() != 5 or errs or (task.done() and task.exception() is not None):
+            fail('C03|listener|disturbs', f'a raising listener: state {proc.state.name}, loop saw {errs}')
+        # ---- pause / play hooks: reported to the requester, process stays controllable
+        for point in PAUSE_HOOKS:
+            for where in ('before', 'after'):
+                key = f'C03|{point}:{where}'
+                errs = []
+                asyncio.get_event_loop().set_exception_handler(lambda l, c: errs.append(repr(c.get('exception') or c.get('message'))))
+                F = make(point, where)
+                proc = F()
+                reported = None
+                try:
+                    r1 = proc.pause('p')
+                    r2 = proc.play()
+                except Boom:
+                    reported = True
+                except Exception as e:  # noqa
+                    fail(key + '|other-exception', f'pause/play raised {type(e).__name__} instead of the injected exception')
+                if not reported:
+                    fail(key + '|not-reported', 'the hook failure was not reported to the caller of pause()/play()')
+                if proc.has_terminated():
+                    fail(key + '|not-live', f'the process ended {proc.state.name}')
+                    continue
+                F.fired.append('done')
+                try:
+                    if proc.paused:
+                        proc.play()
+                    proc.kill('bye')
+                    await _settle(10)
+                except Exception as e:  # noqa
+                    fail(key + '|uncontrollable', f'after the failed hook, play()/kill() raised {type(e).__name__}: {e}')
+                if not proc.has_terminated():
+                    fail(key + '|uncontrollable', f'after the failed hook the process cannot be killed (state {proc.state.name}, paused {proc.paused})')
+        # ---- the same hooks on the DEFERRED path: pause requested inside a waiting step
+        for point in ('on_pausing', 'on_paused'):
+            for where in ('before', 'after'):
+                key = f'C03|deferred-{point}:{where}'
+                errs = []
+                asyncio.get_event_loop().set_exception_handler(lambda l, c: errs.append(repr(c.get('exception') or c.get('message'))))
+                F = make(point, where)
+                proc = F()
+                task = asyncio.ensure_future(proc.step_until_terminated())
+                await _settle(10)             # now inside the waiting step
+                first = proc.pause('p')
+                await _settle(20)
+                rv = await _resolve(first)
+                if not (isinstance(rv, tuple) and rv[0] == '<raised>' and rv[1] == 'Boom'):
+                    fail(key + '|not-reported', f'the requester of the pause got {rv!r} instead of the hook failure')
+                if proc.has_terminated():
+                    fail(key + '|not-live', f'the process ended {proc.state.name}')
+                    task.cancel()
+                    continue
+                try:
+                    second = proc.pause('again')
+                    await _settle(20)
+                    rv2 = await _resolve(second)
+                    if rv2 is not True or not proc.paused:
+                        fail(key + '|uncontrollable', f'a later pause() gives {rv2!r} (paused={proc.paused}) instead of pausing the process')
+                    proc.play()
+                    proc.kill('bye')
+                    await _settle(20)
+                except Exception as e:  # noqa
+                    fail(key + '|uncontrollable', f'after the failed hook, pause()/play()/kill() raised {type(e).__name__}: {e}')
+                if not proc.has_terminated():
+                    fail(key + '|uncontrollable', f'after the failed hook the process cannot be killed (state {proc.state.name}, paused {proc.paused})')
+                task.cancel()
+        # ---- construction failures propagate
+        for point in CTOR_HOOKS:
+            for where in ('before', 'after'):
+                F = make(point, where)
+                try:
+                    F()
+                    fail(f'C03|{point}:{where}|swallowed', 'a failing construction hook did not propagate to the caller')
+                except Boom:
+                    pass
+                except Exception as e:  # noqa
+                    fail(f'C03|{point}:{where}|other-exception', f'construction raised {type(e).__name__} instead of the injected exception')
+        new = [(k, t) for k, t in failures if k not in known]
+        for k in sorted({k for k, _ in failures if k in known}):
+            print('KNOWN-HISTORY', k)
+        if doc.get('list_all'):
+            for k, t in failures:
+                print('FAIL', k, '::', t)
+        if new:
+            return '; '.join(f'{k}: {t}' for k, t in new[:3]) + (f' (+{len(new) - 3} more)' if len(new) > 3 else '')
+        return None
+
+    return _run(main())
